@@ -210,6 +210,7 @@ class Scheduler:
         self.late_wakeup = None   # callable(sched) -> extra delay for sleepers
         self.thread_errors = []
         self._by_ident = {}
+        self.release_hooks = {}   # thread name -> [callables] run at its next lock release
 
     # -- tracing ----------------------------------------------------------
     def emit(self, e, **kw):
@@ -451,6 +452,31 @@ class Scheduler:
         finally:
             me.gate_step = None
 
+    def on_next_release(self, fn):
+        """Run ``fn`` when the calling thread next releases a lock - i.e.
+        still inside the critical section's atomic block, before any other
+        thread can observe the change (linearization-point logging)."""
+        me = self.me()
+        self.release_hooks.setdefault(me.name if me else None, []).append(fn)
+        return fn
+
+    def run_release_hooks(self, only=None):
+        me = self.me()
+        key = me.name if me else None
+        hooks = self.release_hooks.get(key)
+        if not hooks:
+            return False
+        if only is not None:
+            if only in hooks:
+                hooks.remove(only)
+                only()
+                return True
+            return False
+        self.release_hooks[key] = []
+        for h in hooks:
+            h()
+        return True
+
     def interrupt(self, name, exc):
         """Deliver an exception (e.g. KeyboardInterrupt) to a thread at its
         next interruptible wait."""
@@ -524,6 +550,10 @@ class Lock:
                 return  # unwinding a torn-down run
             raise RuntimeError('release unlocked lock')
         self._owner = None
+        _SCHED.run_release_hooks()
+        # a switch right after a release matters when the code touches
+        # shared state after leaving its critical section
+        _SCHED.point('lock-release')
 
     def locked(self):
         return self._owner is not None
@@ -667,6 +697,8 @@ class Event:
 
     def set(self):
         self._flag = True
+        if _SCHED is not None:
+            _SCHED.point('event-set')
 
     def clear(self):
         self._flag = False
@@ -708,6 +740,8 @@ class Semaphore:
 
     def release(self, n=1):
         self._value += n
+        if _SCHED is not None:
+            _SCHED.point('sem-release')
 
     def __exit__(self, *a):
         self.release()
